@@ -18,7 +18,7 @@ META = {
                  "without chain rule must throw or still be right",
     "text": "On the sampled formulas and points the value of differentiate(v) (and of differentiate(v) then differentiate(w)) equals the "
             "Richardson finite difference of getValue (resp. of the first derivative) within 50x the estimated finite-difference error + "
-            "1e-9 relative; differentiate never throws on a formula made of operators, power<N>, conditionals and the functions for which "
+            "1e-9 relative + 1e-10 of the natural scale (magnitude of the terms / variable scale); differentiate never throws on a formula made of operators, power<N>, conditionals and the functions for which "
             "Function.cxx has a chain rule, and a returned derivative of a formula holding other functions is judged the same way. "
             "Points where the difference table does not converge (kinks, domain edges) are skipped and counted.",
     "note": "Trusted: the Richardson table in harness/text/c13.cxx (step 2^-5 of the variable scale, halved five times; error estimate = disagreement of the coarse and fine tables + "
@@ -128,7 +128,7 @@ def shard(args):
         extra = [("wrt", w1), ("ferr", repr(err * c13.U))]
         if rng.random() < 0.5:
             extra.append(("wrt2", w2))
-        c.update(stratum=st, env=env, ref=v, wrt=w1, wrt2=w2, varlist=varlist, funcs=sorted(E.functions(c["tree"])))
+        c.update(stratum=st, env=env, ref=v, err=err, wrt=w1, wrt2=w2, varlist=varlist, funcs=sorted(E.functions(c["tree"])))
         c["line"] = c13.line(cid, "D", c["formula"], varlist, [], extra)
         cases[str(cid)] = c
         lines.append(c["line"])
@@ -177,7 +177,15 @@ def shard(args):
             if not math.isfinite(fe) or fe > 1e-4 * abs(fd) + 1e-12:
                 stat("skipped-fd-unconverged:%s" % api)
                 continue
-            tol = 50 * fe + 1e-9 * scale + 1e-13
+            # rounding of the derivative expression itself: its terms have the magnitude of the terms of the formula (the
+            # running bound `err` sums them) divided by the variable scale once per differentiation; 1e-10 of that is far
+            # below what a wrong rule produces and far above cancellation noise (d2/dx2 of -89*x/x is 1e-13, not 0)
+            xs = 1.0
+            for wn in ([c["wrt"]] if order == 1 else [c["wrt"], c["wrt2"]]):
+                lo, hi = c["gen"].vars[wn]
+                xs *= max(abs(c["env"][wn]), 0.05 * (hi - lo))
+            natural = max(c["err"], abs(c["ref"])) / xs
+            tol = 50 * fe + 1e-9 * scale + 1e-10 * natural + 1e-13
             ratio = abs(dv - fd) / tol if dv == dv else float("inf")
             cls = st
             if st == "one-function":
